@@ -186,6 +186,22 @@ def run(case: dict, lean: Lean) -> Outcome:
                 if not (o == c if how.startswith("pickle") else _same(c, o)): failed.append(f"{how}: {c} -> {o}")
             except Exception as e:
                 failed.append(f"{how}: {type(e).__name__}: {str(e)[:60]}")
+        # the pickled state itself, against the model of __getstate__ (identifiers / numbers resolved through the vocabulary)
+        try:
+            toi = (lambda x: int(str(x)[1:])) if case["str_ids"] else int
+            f0 = fresh(); voc = None if f0._vocab is None else [toi(x) for x in f0._vocab.ids()]
+            init = {"len": len(f0), "ids": [toi(x) for x in f0.ids()], "nums": None, "vocab": voc, "ordered": bool(f0.ordered),
+                    "fields": [{"name": n_, "vals": []} for n_ in f0._fields]}
+            try:
+                st = f0.__getstate__()
+                real_st = {"ordered": bool(st["ordered"]), "len": int(st["len"]), "ids": None if st.get("ids") is None else [toi(x) for x in st["ids"]],
+                           "numbers": None if st.get("numbers") is None else [int(x) for x in st["numbers"]], "fields": [k_[6:] for k_ in st if k_.startswith("field_")]}
+            except Exception as e: real_st = {"err": {"KeyError": "key", "RuntimeError": "runtime", "IndexError": "index"}.get(type(e).__name__, type(e).__name__)}
+            m_as = lean.call("c15.getstate", {"variant": "asIs", "init": init}); m_rep = lean.call("c15.getstate", {"variant": "repaired", "init": init})
+            if real_st not in (m_as, m_rep): corr = False; failed.append(f"pickled state {real_st} differs from the model's {m_rep}")
+            elif real_st != m_rep: failed.append(f"pickled state {real_st}, specification {m_rep}")
+        except Exception as e:
+            failed.append(f"state comparison raised {type(e).__name__}")
         if case["len"] == 0: classes.append("empty list")
         if case["str_ids"]: classes.append("string ids")
         if failed and case["len"] == 0 and all(f.startswith(("arrow: TypeError", "frame:")) for f in failed): key = "empty ItemList does not survive the Arrow / frame round trip"
@@ -228,11 +244,11 @@ def run(case: dict, lean: Lean) -> Outcome:
         finally:
             shutil.rmtree(tmp, ignore_errors=True)
         classes.append("dataset:" + case["how"])
-    return Outcome(True, not failed, tuple(classes), {"failed": failed[:6]}, key)
+    return Outcome(corr, not failed, tuple(classes), {"failed": failed[:6]}, key)
 
 SPEC = CheckSpec(
     pid="C15",
     theorems=[f"LK.Persist.C15_Persist_{n}" for n in ["removal_phase_safe", "onlyFrom_load", "save_crash_safe", "save_fresh_crash_safe"]],
-    correspondence_ops=["c15.crash"],
+    correspondence_ops=["c15.crash", "c15.getstate"],
     nontrivial_rule="distinct cases reaching ≥1 of: crash over fresh / existing directory × torn / clean × each load verdict; item lists (empty, string ids), collections (empty, with empty lists, differing fields), datasets (native, pickle)",
     budgets={"quick": 60, "thorough": 1500}, gen=gen, run=run, shrink=None)
